@@ -11,6 +11,7 @@ import (
 	"context"
 	"errors"
 	"fmt"
+	"io"
 	"strings"
 
 	"github.com/zeebo/errs"
@@ -167,6 +168,11 @@ func buildError(r *payload.SplitMix) (error, string) {
 	code := []uint64{0, 0, 1, 2, 12, 1 << 32, 1 << 63, ^uint64(0)}[r.Intn(8)]
 	var err error = errors.New(text)
 	kind := "none"
+	if r.Intn(6) == 0 {
+		// an error that has io.EOF (or a context error) somewhere beneath it is still the handler's error
+		err = sameTextOver{text: text, in: []error{io.EOF, context.Canceled, io.ErrUnexpectedEOF}[r.Intn(3)]}
+		kind = "wraps-sentinel"
+	}
 	if code != 0 {
 		if r.Intn(2) == 0 {
 			err = drpcerr.WithCode(err, code)
@@ -189,6 +195,15 @@ func buildError(r *payload.SplitMix) (error, string) {
 	}
 	return err, fmt.Sprintf("text=%d bytes code=%d via %s depth=%d", len(text), code, kind, depth)
 }
+
+// sameTextOver is an error with its own text that wraps a sentinel error.
+type sameTextOver struct {
+	text string
+	in   error
+}
+
+func (s sameTextOver) Error() string { return s.text }
+func (s sameTextOver) Unwrap() error { return s.in }
 
 // wrapSameText wraps like fmt.Errorf("%w") but keeps the text unchanged so that
 // the expected client text stays the innermost text.
@@ -213,6 +228,12 @@ func scenario(id string, seed uint64) runner.Result {
 	var descs []string
 	ncalls := 2 + r.Intn(4)
 	events := 0
+	type kept struct {
+		err        error
+		text, desc string
+		code       uint64
+	}
+	var keptErrs []kept
 	for call := 0; call < ncalls; call++ {
 		shape := r.Intn(4)
 		mode := r.Intn(10) // 0-5 handler error, 6-7 success, 8 unknown rpc, 9 undecodable request
@@ -326,6 +347,7 @@ func scenario(id string, seed uint64) runner.Result {
 		case expectErr && cerr == nil:
 			fails = append(fails, fmt.Sprintf("%s: handler/dispatcher failed with %q (code %d) but the client call succeeded", desc, clipS(wantText), wantCode))
 		case expectErr:
+			keptErrs = append(keptErrs, kept{cerr, wantText, desc, wantCode})
 			if cerr.Error() != wantText || drpcerr.Code(cerr) != wantCode {
 				fails = append(fails, fmt.Sprintf("%s: client got error text %q code %d; want text %q code %d", desc, clipS(cerr.Error()), drpcerr.Code(cerr), clipS(wantText), wantCode))
 			}
@@ -357,13 +379,22 @@ func scenario(id string, seed uint64) runner.Result {
 			fails = append(fails, fmt.Sprintf("probe RPC after the calls failed: err=%v response=%q", op.Err, clipS(string(out.B))))
 		}
 	}
+	// an error value keeps its text and code while the connection carries later traffic
+	if len(fails) == 0 {
+		for _, k := range keptErrs {
+			if k.err.Error() != k.text || drpcerr.Code(k.err) != k.code {
+				fails = append(fails, fmt.Sprintf("%s: the error returned to the caller later reads %q code %d (was %q code %d): it changed while later RPCs used the connection", k.desc, clipS(k.err.Error()), drpcerr.Code(k.err), clipS(k.text), k.code))
+				break
+			}
+		}
+	}
 	hist := cfg.Desc + " | " + strings.Join(descs, " ; ")
 	if len(fails) > 0 {
 		k := "error-identity:"
 		switch {
 		case strings.Contains(fails[0], "client call succeeded"):
 			k += "lost"
-		case strings.Contains(fails[0], "client got error text"):
+		case strings.Contains(fails[0], "client got error text"), strings.Contains(fails[0], "later reads"):
 			k += "altered"
 		case strings.Contains(fails[0], "no error but"):
 			k += "spurious"
